@@ -219,6 +219,58 @@ def c11(tier):
         elif call["sha"] != shas[j["base_id"]]:
             v.violation(f"C11|sibling-dependence|sibling={j['variant']}|effect=bytes-differ", {"job": where})
 
+    # directory mode: the helper that enumerates the directory itself, with siblings that only a file system can hold
+    import shutil
+    droot = common.scratch("c11dir")
+    dir_jobs = []
+    try:
+        for k, j in enumerate(r2.sample(base, min(len(base), 24 if tier == "quick" else 200))):
+            n, mask, s = j["n"], j["mask"], j["start_idx"]
+            render = subprocess.run([zdrive, "c11render", str(n), str(mask)], stdout=subprocess.PIPE, env=common.ENV).stdout.decode()
+            texts = {}
+            cur = None
+            for line in render.splitlines(True):
+                if line.startswith("--- f") and line.strip().endswith(".xsd"):
+                    cur = line.strip()[4:]
+                    texts[cur] = ""
+                elif cur is not None:
+                    texts[cur] += line
+            for variant in ("plain", "invalid-utf8-sibling", "directory-named-xsd", "dangling-symlink", "fifo-like-empty", "uppercase-extension"):
+                d = os.path.join(droot, f"g{k}-{variant}")
+                os.makedirs(d)
+                for name, t in texts.items():
+                    with open(os.path.join(d, name), "w") as fh:
+                        fh.write(t)
+                if variant == "invalid-utf8-sibling":
+                    with open(os.path.join(d, "zz_latin1.xsd"), "wb") as fh:
+                        fh.write(b"<?xml version='1.0' encoding='ISO-8859-1'?><a>\xe9\xff\xfe</a>")
+                elif variant == "directory-named-xsd":
+                    os.makedirs(os.path.join(d, "zz_dir.xsd"))
+                elif variant == "dangling-symlink":
+                    os.symlink(os.path.join(d, "nowhere.xsd"), os.path.join(d, "zz_link.xsd"))
+                elif variant == "fifo-like-empty":
+                    open(os.path.join(d, "zz_empty.xsd"), "w").close()
+                elif variant == "uppercase-extension":
+                    with open(os.path.join(d, "ZZ_OTHER.XSD"), "w") as fh:
+                        fh.write("<broken")
+                dir_jobs.append({"id": 20_000_000 + len(dir_jobs), "op": "gen", "dir": d, "start": f"f{s}.xsd", "variant": variant,
+                                 "base_id": j["id"], "cpu_budget_s": 10, "where": {"n": n, "mask": mask, "start": s}})
+        dir_results = common.run_jobs(zdrive, dir_jobs, nworkers=16)
+    finally:
+        shutil.rmtree(droot, ignore_errors=True)
+    for j, res in zip(dir_jobs, dir_results):
+        if res.get("watchdog") or "died" in res:
+            v.violation(f"C11|sibling-dependence|sibling={j['variant']}|effect=died-or-hung|mode=directory", {"job": j["where"]})
+            continue
+        call = res["calls"][0]
+        sib_compared += 1
+        sib_variants["dir:" + j["variant"]] = sib_variants.get("dir:" + j["variant"], 0) + 1
+        if call["outcome"] != "ok":
+            v.violation(f"C11|sibling-dependence|sibling={j['variant']}|effect={call['outcome']}|mode=directory",
+                        {"job": j["where"], "err": call.get("err"), "panic": call.get("panic")})
+        elif call["sha"] != shas[j["base_id"]]:
+            v.violation(f"C11|sibling-dependence|sibling={j['variant']}|effect=bytes-differ|mode=directory", {"job": j["where"]})
+
     evaluated = len(jobs) - stats["inconclusive"]
     cov = {
         "evaluations": evaluated + sib_compared,
